@@ -2745,10 +2745,20 @@ def orbital_equinox2equinox(epoch0, epoch, i0, arg0, lon0):
     etar = eta.rad()
     lon0r = lon0.rad()
     pir = pie.rad()
-    # If i0 is zero, the procedure is different
-    if abs(i0) < TOL:
+    # If i0 is zero, the procedure is different (an inclination which is tiny
+    # but not zero is handled by the general expressions)
+    if float(i0) == 0.0:
         i1 = eta
         lon1 = pie + p + 180.0
+        if eta < 0.0:
+            # Towards an earlier equinox 'eta' is negative: The inclination
+            # is its absolute value, and the node is the opposite one
+            i1 = -eta
+            lon1 = pie + p
+        elif t == 0.0:
+            # Same equinox: The (arbitrary) node stays where it was given, so
+            # that node plus argument of perihelion is kept
+            lon1 = Angle(lon0)
     else:
         a = sin(i0r) * sin(lon0r - pir)
         b = -sin(etar) * cos(i0r) + cos(etar) * sin(i0r) * cos(lon0r - pir)
